@@ -209,7 +209,9 @@ IndSmall(d) == { <<"q", "upd", d, 3, 5, 40, 1, 200, 1250>>, <<"q", "chm", d>> \o
 
 InstantNext ==
     \/ /\ stage = "init"
-       /\ \E lat \in Lats : DoAll(<<Conn(2, 3, 24, lat, 300, FullMap, 11, 5, 0), Step(0, 0, 1), <<"q", "cccd", 1>>, Step(0, 0, 1), Step(0, 0, 1)>>)
+       \* (interval / timeout valid for any latency in Lats: 30 ms / 3 s up to latency 3, see IntFor for larger ones)
+       /\ \E lat \in Lats : DoAll(<<Conn(2, 3, IF lat <= 3 THEN 24 ELSE IntFor(lat), lat, IF lat <= 3 THEN 300 ELSE 3200, FullMap, 11, 5, 0),
+                                     Step(0, 0, 1), <<"q", "cccd", 1>>, Step(0, 0, 1), Step(0, 0, 1)>>)
        /\ stage' = "pre" /\ n' = 0
     \/ /\ stage = "pre"          \* optional: go near the wrap of the 16 bit event counter first
        /\ \/ UNCHANGED hist /\ n' = 0
